@@ -89,9 +89,32 @@ def handle(line: str) -> str:
             c = mk(gs)
             a1 = guard(lambda: algebra_text(str(c.get_algebra())))
             a2 = guard(lambda: algebra_text(str(c.get_algebra())))
+            # read-only queries in between (membership of members, of products, of random strings; dependents; space on
+            # small n): "the same across repeated calls" includes calls separated by other read-only calls
+            r = random.Random("ro:" + t[1])
+            n = len(gs[0]) if gs else 0
+            qs = []
+            if gs:
+                pairs = anti_pairs(gs)
+                for _ in range(3):
+                    q = [r.choice(gs)]
+                    if pairs:
+                        i, j = r.choice(pairs); q.append(mulstr(gs[i], gs[j]))
+                    q.append("".join(r.choice("IXYZ") for _ in range(n)))
+                    r.shuffle(q)
+                    qs.append(q[:r.randint(1, 3)])
+            def ro():
+                for q in qs:
+                    c.is_in(mk(q)); c.select_dependents(mk(q)); c.is_eq(mk(q))
+                c.get_dependents(); c.get_independents(); c.get_canonic_vertices()
+                if gs and n <= 3:
+                    c.get_space()
+                return "done"
+            guard(ro)
+            a5 = guard(lambda: algebra_text(str(c.get_algebra())))
             a3 = guard(lambda: algebra_text(str(c.classify().get_algebra())))
             a4 = alg_of(gs)
-            return f"first={a1} cached={a2} reclassified={a3} fresh={a4}"
+            return f"first={a1} cached={a2} after-readonly-queries={a5} reclassified={a3} fresh={a4}"
     except Exception as e:
         return exc_name(e)
     return "bad-op"
